@@ -184,6 +184,19 @@ func mkAnd(as ...*Term) *Term {
 		if seen[mkNot(a)] {
 			return tFalse
 		}
+		// x1 .. xn together with not(and(x1 .. xn)) (unit propagation over one clause)
+		if a.Op == "not" && a.Args[0].Op == "and" {
+			all := true
+			for _, c := range a.Args[0].Args {
+				if !seen[c] {
+					all = false
+					break
+				}
+			}
+			if all {
+				return tFalse
+			}
+		}
 	}
 	if len(out) == 0 {
 		return tTrue
@@ -255,6 +268,10 @@ func mkEq(a, b *Term) *Term {
 			}
 			return mkNot(a)
 		}
+	}
+	if a.Op == "uf" && b.Op == "uf" && a.Name == "H" && b.Name == "H" && len(a.Args) == 1 && len(b.Args) == 1 {
+		// the digest is modelled as an injective function (stated assumption): equal digests iff equal texts
+		return mkEq(a.Args[0], b.Args[0])
 	}
 	if a.Sort == SStr {
 		// strip common prefix / suffix atoms; detect constant mismatch
